@@ -114,6 +114,17 @@ def split_top(t, sep=','):
     return out
 
 
+def display_keys(text):
+    """Key texts of a rendered dict display `{k1: v1, ...}` / set or tuple display, or None when the text is not a display."""
+    if len(text) < 2 or text[0] not in '{([' or text[-1] not in '})]':
+        return None
+    out = []
+    for e in split_top(text[1:-1]):
+        kv = split_top(e, ':')
+        out.append(kv[0])
+    return out
+
+
 def resolve_lookup(text):
     """A rendered dispatch `{k1: v1, ...}.get(K, D)` or `{k1: v1, ...}[K]` with K a decided key -> the selected value text
     (D when K is no key of the display); any other text is returned unchanged.  This is how a rule reads "which class does the
